@@ -1537,16 +1537,24 @@ class Engine:
                     elif ex[0] == "raise":
                         outs.append((s2, Raise(ex[1])))
                     else:
-                        raise Unsupported(f"{ex[0]} out of a generator-managed with block (line {node.lineno})")
+                        # return / break / continue leave the block normally as far as the manager is concerned:
+                        # the generator is resumed after its yield, then the jump proceeds
+                        s2.ghost[pending_key] = ex
+                        outs.append((s2, None))
             yield from outs
 
+        pending_key = ("pending-with-exit", id(node), fr)
         self.yield_hook = hook
         try:
             results = list(self.call_closure(cm.closure, cm.args, cm.kwargs, st, node.lineno))
         finally:
             self.yield_hook = saved
         for s3, r in results:
-            yield s3, (("raise", r.exc) if isinstance(r, Raise) else None)
+            pending = s3.ghost.pop(pending_key, None)
+            if isinstance(r, Raise):
+                yield s3, ("raise", r.exc)
+            else:
+                yield s3, pending
 
     def _with_protocol(self, node, item, cm, st, fr):
         """The context-manager protocol for managers whose __enter__/__exit__ are modelled (and never
